@@ -1,15 +1,183 @@
 /-
   C19 — TLSH/Nilsimsa: well-formed reproducible digests, distances behave as distances.
-  ONLY property theorems (and their non-vacuity examples) live here; helper lemmas are in Proofs/Lemmas.
+  ONLY property theorems (and their non-vacuity examples) live here; helper lemmas are in Proofs/Lemmas/Tlsh.lean,
+  Proofs/Lemmas/Nilsimsa.lean.
+
+  Conventions: `lcap : Nat → Nat` is libm-based `l_capturing` (an uninterpreted parameter: every theorem holds for
+  all of them); `.ok none` is the Python `None`; `.error _` an exception.  "Distances are non-negative" needs no
+  theorem: `distance` returns a `Nat` by typing.  `ObjWF c o` (Proofs/Lemmas/Tlsh.lean) says that `o` is a valid
+  digest object of configuration `c` (field lengths and ranges) — what `final` and `from_hash` hand out.
 -/
 import Model.Tlsh
 import Model.Nilsimsa
 import Spec.Tlsh
 import Spec.Nilsimsa
+import Proofs.Lemmas.Tlsh
 namespace Proofs.C19
-open Model
+open Model Model.Tlsh Proofs.Lemmas.Tlsh
+
+/-! ## Tables: regenerated data = reference data -/
 
 /-- the Pearson table read from the current source is the reference table -/
 theorem pearson_gen_eq_spec : Model.Gen.Lsh.pearsonT = Spec.Tlsh.vTable := by decide +kernel
+
+/-- … and a permutation of 0..255 -/
+theorem pearson_perm : List.Perm Model.Gen.Lsh.pearsonT (List.range 256) := by decide +kernel
+
+/-- the complete behaviour of the code's `triplet` generator (probed) is the reference list of 21 triplets
+    (lags 1-based from the end of the window, the current byte first) -/
+theorem triplets_gen_eq_spec :
+    Model.Gen.Lsh.triplets = Spec.Tlsh.refTriplets.map (fun t => [t.1, 1, t.2.1 + 1, t.2.2 + 1]) := by decide +kernel
+
+/-- number of triplets the generator yields for window sizes 4..8 = the reference's `#if SLIDING_WND_SIZE>=k` selection -/
+theorem triplet_counts_gen_eq_spec :
+    Model.Gen.Lsh.tripletCounts = [4, 5, 6, 7, 8].map (fun w => (Spec.Tlsh.triplets w).length) := by decide +kernel
+
+/-- the body scoring probed from `distance` is the bit-pair difference rule (|a-b|, 3 counts 6) -/
+theorem pairDiff_gen_eq_spec : ∀ a < 4, ∀ b < 4, pairDiff a b = Spec.Tlsh.pairDiff a b := by decide +kernel
+
+/-- the minimum lengths read from the live object -/
+theorem minlen_gen : Model.Gen.Lsh.minLen = 50 ∧ Model.Gen.Lsh.minLenNoForce = 256 := by decide
+
+/-! ## TLSH: digest length, None conditions, never an exception -/
+
+/-- a digest has exactly `chklen + 2 + buckets/4` bytes, each < 256 -/
+theorem digest_length (lcap : Nat → Nat) (c : Cfg) (data : List Nat) (force : Bool) (d : List Nat)
+    (h : tlsh lcap c data force = .ok (some d)) : d.length = c.chklen + 2 + c.buckets / 4 ∧ ∀ x ∈ d, x < 256 := by
+  unfold tlsh at h
+  split at h
+  · cases h
+  · rw [final_eq] at h
+    repeat' split at h
+    all_goals first | (cases h; done) | skip
+    simp only [Except.map, Option.map] at h
+    cases h
+    have wf := mkObj_wf lcap c data
+    exact ⟨by rw [Lemmas.Tlsh.digest_length, wf.cklen, wf.codelen]; rfl, digest_lt wf⟩
+
+/-- for a valid configuration `TLSH(cfg)(data,force)` never raises -/
+theorem tlsh_never_errors (lcap : Nat → Nat) (c : Cfg) (hc : c.valid = true) (data : List Nat) (force : Bool) :
+    ∃ r, tlsh lcap c data force = .ok r := by
+  unfold tlsh
+  simp only [hc, Bool.true_eq_false, ↓reduceIte]
+  rw [final_eq]
+  repeat' split
+  all_goals first | exact ⟨_, rfl⟩ | skip
+  rename_i hg h0
+  exact absurd h0 (gate_q3_pos hc (update_wf c data).bklen (by simpa using hg))
+
+/-- the result is None exactly when the input is shorter than 50 bytes, or shorter than 256 without the force flag,
+    or populates too few of the first `buckets` buckets (48 buckets: fewer than 18; otherwise: at most half) -/
+theorem tlsh_none_iff (lcap : Nat → Nat) (c : Cfg) (hc : c.valid = true) (data : List Nat) (force : Bool) :
+    tlsh lcap c data force = .ok none ↔
+      (data.length < 50 ∨ (force = false ∧ data.length < 256)
+        ∨ tooFew c.buckets (nonzero c (update c data).bucket) = true) := by
+  unfold tlsh
+  simp only [hc, Bool.true_eq_false, ↓reduceIte]
+  rw [final_eq]
+  by_cases h1 : data.length < 50 ∨ (force = false ∧ data.length < 256)
+  · simp only [h1, ↓reduceIte, Except.map, Option.map, true_iff]
+    rcases h1 with h | h
+    · exact Or.inl h
+    · exact Or.inr (Or.inl h)
+  · simp only [h1, ↓reduceIte]
+    by_cases h2 : tooFew c.buckets (nonzero c (update c data).bucket) = true
+    · simp [h2, Except.map]
+    · have h2' : tooFew c.buckets (nonzero c (update c data).bucket) = false := by simpa using h2
+      have h3 := gate_q3_pos hc (update_wf c data).bklen h2'
+      rw [h2']
+      simp only [h3, ↓reduceIte, Except.map, Option.map, Bool.false_eq_true]
+      constructor
+      · intro h; cases h
+      · rintro (h | h | h)
+        · exact absurd (Or.inl h) h1
+        · exact absurd (Or.inr h) h1
+        · cases h
+
+/-- an invalid configuration is refused by the constructor -/
+theorem tlsh_invalid_cfg (lcap : Nat → Nat) (c : Cfg) (hc : c.valid = false) (data : List Nat) (force : Bool) :
+    ∃ e, tlsh lcap c data force = .error e := by
+  unfold tlsh; simp [hc]
+
+/-! ## Re-loading a digest -/
+
+/-- what `TLSH(cfg)(data,force)` returns re-loads (`from_hash`) into the object that `final` built — same checksum,
+    Lvalue, q ratios and code — and serialises back to the identical bytes -/
+theorem tlsh_reload (lcap : Nat → Nat) (c : Cfg) (data : List Nat) (force : Bool) (d : List Nat)
+    (h : tlsh lcap c data force = .ok (some d)) :
+    ∃ o, final lcap c data force = .ok (some o) ∧ ObjWF c o ∧ fromHash c d = .ok o ∧ digest o = d := by
+  unfold tlsh at h
+  split at h
+  · cases h
+  · cases hf : final lcap c data force with
+    | error e => rw [hf] at h; cases h
+    | ok r =>
+      rw [hf] at h
+      cases r with
+      | none => cases h
+      | some o =>
+        simp only [Except.map, Option.map] at h
+        cases h
+        have wf : ObjWF c o := by
+          rw [final_eq] at hf
+          repeat' split at hf
+          all_goals first | (cases hf; done) | skip
+          cases hf
+          exact mkObj_wf lcap c data
+        exact ⟨o, rfl, wf, fromHash_digest wf, rfl⟩
+
+/-- `from_hash` accepts EVERY byte string of the configuration's digest length (its closing assertion never fires),
+    yields a valid object, and `digest()` gives the identical bytes back -/
+theorem fromHash_serialises_back (c : Cfg) (d : List Nat) (hlen : d.length = c.chklen + 2 + c.buckets / 4)
+    (hd : ∀ x ∈ d, x < 256) : ∃ o, fromHash c d = .ok o ∧ digest o = d ∧ ObjWF c o :=
+  digest_fromHash c d hlen hd
+
+/-- conversely every valid object is recovered from its digest -/
+theorem fromHash_of_digest (c : Cfg) (o : TObj) (h : ObjWF c o) : fromHash c (digest o) = .ok o := fromHash_digest h
+
+/-- a byte string of any other length is refused -/
+theorem fromHash_bad_length (c : Cfg) (d : List Nat) (hlen : d.length ≠ c.chklen + 2 + c.buckets / 4) :
+    ∃ e, fromHash c d = .error e := by
+  unfold fromHash
+  split
+  · rename_i lv qb body hdr
+    have : (d.drop c.chklen).length = body.length + 2 := by rw [hdr]; rfl
+    have hb : body.length ≠ c.codesize := by
+      unfold Cfg.codesize; simp at this; omega
+    simp [hb]
+  · exact ⟨_, rfl⟩
+
+/-! ## Distances -/
+
+/-- `d(x,y) == d(y,x)` for all operands (objects, raw bytes, mixed, malformed): the observable results agree
+    (`toOption` forgets only which exception was raised; `some none` is the Python `None`) -/
+theorem dist_symm (x y : Operand) (lv : Bool) : (distance x y lv).toOption = (distance y x lv).toOption :=
+  distance_symm x y lv
+
+/-- `d(x,x) == 0` for every operand that denotes a digest (a valid object, or bytes that `from_hash` accepts) -/
+theorem dist_self (x : Operand) (t : TObj) (hx : resolve x = .ok (some t)) (lv : Bool) :
+    distance x x lv = .ok (some 0) := distance_self x t hx lv
+
+/-- objects and their raw digest bytes are interchangeable in both argument positions (object/object =
+    object/bytes = bytes/object = bytes/bytes) -/
+theorem dist_obj_eq_bytes (c : Cfg) (hc : c.valid = true) (o : TObj) (ho : ObjWF c o) (y : Operand) (lv : Bool) :
+    distance (.raw (digest o)) y lv = distance (.obj o) y lv
+    ∧ distance y (.raw (digest o)) lv = distance y (.obj o) lv := by
+  have h := resolve_raw_digest hc ho
+  constructor <;> (unfold distance; rw [h]; rfl)
+
+/-- in particular for the digests produced by hashing: all four forms agree, and two valid digests of one
+    configuration always have a distance (no exception, not None) -/
+theorem dist_forms_agree (c : Cfg) (hc : c.valid = true) (o1 o2 : TObj) (h1 : ObjWF c o1) (h2 : ObjWF c o2) (lv : Bool) :
+    ∃ n, distance (.obj o1) (.obj o2) lv = .ok (some n) ∧ distance (.obj o1) (.raw (digest o2)) lv = .ok (some n)
+      ∧ distance (.raw (digest o1)) (.obj o2) lv = .ok (some n)
+      ∧ distance (.raw (digest o1)) (.raw (digest o2)) lv = .ok (some n) := by
+  have e1 := resolve_raw_digest hc h1
+  have e2 := resolve_raw_digest hc h2
+  have e1' : resolve (.obj o1) = .ok (some o1) := rfl
+  have e2' : resolve (.obj o2) = .ok (some o2) := rfl
+  refine ⟨headerDiff o1 o2 lv + bodyDiff o2.code o1.code, ?_, ?_, ?_, ?_⟩ <;>
+    (unfold distance; simp only [e1, e2, e1', e2', bind, Except.bind, pure, Except.pure, h1.chk, h2.chk, ne_eq,
+      not_true_eq_false, ↓reduceIte])
 
 end Proofs.C19
